@@ -20,9 +20,12 @@ ASSUMPTIONS = [
     "inputs inside the backend's magnitude domain (FFT64: 4 * terms * n * 2^(2(b-1)) < 2^50); the exactness of the f64 FFT / NTT120 butterflies "
     "enters through the bit-exact correspondence (C07), the theorems are over exact products",
     "n >= 8 (the FFT64 convolution kernels process blocks of 8 coefficients; for n < 8 they compute nothing), sizes >= 1",
-    "normalize_value_ok (one unit of the result's last limb per big-normalisation; C08) and keyswitch_phase (C03) are named Section hypotheses of the "
-    "core-level theorems",
-    "the declared *_tmp_bytes of the core operations under-estimate the scratch they take for many shapes (C12); the harness adds slack",
+    "normalize_value_ok / nrm_no_overflow / nrm_shape (one unit of the result's last limb per big-normalisation) are named Section hypotheses of the "
+    "general core-level theorems; they are discharged from C08's normalize_inter_value for the FFT64 family with equal radices "
+    "(C05_tensor_phase_fft64, C05_mul_plain_phase_fft64); for cross-radix results and the i128 accumulator of NTT120 they remain hypotheses",
+    "relinearisation is not modelled (keyswitch_phase, C03, is the hypothesis of the stated C05_relinearize_phase_full)",
+    "operations run with exactly their declared *_tmp_bytes of scratch (garbage-filled); cnv_offset <= (a.size + b.size + 1) * base2k - 1 "
+    "(beyond, `a.size() + b.size() - cnv_offset_hi` underflows: debug builds panic)",
     "relinearisation is judged by the oracle's envelope (gadget bound with B = 20 >= 6 sigma), not reproduced bit for bit",
 ]
 TRUSTED = ["secret key coefficients are obtained by replaying ScalarZnx::fill_ternary_prob on a copy with the same seed (GLWESecret has no public accessor)"]
@@ -56,28 +59,12 @@ def _l2_bits(record):
 
 
 def classify(record):
-    try:
-        code, ps, vs, outs = record.split("#")
-        code = int(code)
-        p = [_hex(x) for x in ps.split()]
-        if outs.startswith("PANIC"):
-            return None
-        if code in (5001, 5002, 5004):
-            # FFT64 family, destination with more than one column
-            return K_RESCOL if p[0] <= 2 and p[2] >= 2 else None
-        if code == 5201:
-            bits = _l2_bits(record)
-            rb, kb, dsize, relb = p[4], p[10], p[11], p[14]
-            radix = rb != kb and relb == kb
-            if bits == {3} and radix:
-                return K_RELIN_RADIX
-            if bits == {6} and dsize >= 3:
-                return K_DSIZE3
-            if bits == {3, 6} and radix and dsize >= 3:
-                return K_RELIN_RADIX
-        return None
-    except Exception:
-        return None
+    """no class of C05 is known-and-open: the three classes found while building the check were repaired in /repo
+    (fft64.cnv_apply_dft.res_col_ignored 2ac1856, relinearize.res_radix_decides_conversion 5107ea7,
+    gglwe_product.dsize_ge3.stale_limb c0a89d7), so every oracle failure is a violation.  `_l2_bits(record)` tells which
+    sub-check of a level-2 record fails (0 keyless bit-exactness, 1 tensor/product phase, 2 decrypt of it, 3 relinearised phase,
+    4 decrypt of it, 5/6 scratch independence)."""
+    return None
 
 
 def search(ctx, diffs):
@@ -122,6 +109,11 @@ def extra(ctx, ofails, notes):
         else:
             cov["l2_oracle_fails"] += 1
             ofails.append({"profile": "release", "record": line})
+            if cov["l2_oracle_fails"] <= 3:
+                try:
+                    notes.append("level-2 record %d fails sub-checks %s" % (n, sorted(_l2_bits(line))))
+                except Exception:
+                    pass
     notes.append("level 2 (real keys): %d records, oracle holds %d, fails %d, panics %d" %
                  (cov["l2_records"], cov["l2_oracle_holds"], cov["l2_oracle_fails"], cov["l2_panics"]))
     return {"level2": cov}
